@@ -19,10 +19,10 @@ RS = "web/resource.py"
 TECHNIQUE = "finite-domain interpretation of the containment checks + taint to path sinks"
 EXPLANATION = (
     "Decides: (a) FilePath.child and FilePath.preauthChild are interpreted with the whitelisted evaluator (os.path modelled by posixpath, no execution of "
-    "twisted) for every name built from up to three segments of a hostile alphabet ('', '.', '..', a, root, root-evil, rootx, ..a) plus absolute, NUL, "
+    "twisted) in str and bytes mode for every name built from up to three segments of a hostile alphabet ('', '.', '..', a, root, root-evil, rootx, ..a) plus absolute, NUL, "
     "backslash and doubled-separator forms, against parents '/t/root' and '/': the result must be InsecurePath, the parent itself, or a direct child "
     "(child) / a path inside the subtree with a separator-aware boundary (preauthChild; F26, fixed), and ordinary names must still be accepted; "
-    "descendant builds its result only by child() per segment; (b) taint: in static.File.getChild the request segment reaches a path constructor only "
+    "descendant is interpreted on segment lists over the same alphabet (its result must be InsecurePath or inside the subtree); (b) taint: in static.File.getChild the request segment reaches a path constructor only "
     "through self.child() inside a try that turns InsecurePath into childNotFound; File/Resource do not override child; a segment that is not UTF-8 "
     "gives childNotFound; (c) server.Request.process splits the path at '/' before unquoting each piece and resource.getChildForRequest hands each "
     "piece on whole, so an encoded separator stays inside one segment. Not decided: symbolic links (excluded by the statement), Windows path rules."
@@ -33,7 +33,9 @@ ASSUMPTIONS = ["posixpath.normpath/join/abspath model os.path on the analysed pl
 ROOTS = ["/t/root", "/"]
 SEGS = ["", ".", "..", "a", "root", "root-evil", "rootx", "..a"]
 SPECIAL = ["/etc/passwd", "//etc", "a\x00b", "..\\x", "\\", "a//b", "a/./b", "../root/../root-evil/x", "../../t/root-evil", "../root", "../root/",
-           "../root/a", "../rootx", "/t/root-evil/x", "/t/root/a", "/t/root", "a/..", "a/../..", "%2e%2e", "%2e%2e/x", "...", "a/", "/"]
+           "../root/a", "../rootx", "/t/root-evil/x", "/t/root/a", "/t/root", "a/..", "a/../..", "%2e%2e", "%2e%2e/x", "...", "a/", "/",
+           # names that normalise to '..' / to the parent without being literally '..'
+           "../", "./..", "x/../..", "..//", "a/../../b", "./../", ".//..", "../.", "x/../../", "x/y/../../..", "../rootsibling/secret.txt", "../root-evil"]
 
 
 def _names():
@@ -44,22 +46,63 @@ def _names():
     return sorted(set(out + SPECIAL))
 
 
-def _model(root):
+class InsecurePath(Exception):
+    """stands for twisted.python.filepath.InsecurePath when a modelled method raises it"""
+
+
+class _FP:
+    """Model of a FilePath: holds the path; child()/preauthChild() are evaluated by interpreting the repository's own
+    FilePath.child / FilePath.preauthChild with os.path modelled by posixpath (nothing of twisted is executed)."""
+    _sa_model = True
+
+    def __init__(self, path, methods_):
+        self.path = path
+        self.methods_ = methods_
+
+    def _call(self, meth, name):
+        f = self.methods_[meth]
+        kind, val = interpret(f, {param_names(f)[1]: name, "self": self}, funcs=_model(self))
+        if kind == "raise":
+            if val == "InsecurePath":
+                raise InsecurePath(name)
+            raise RuntimeError(f"{meth} raises {val}")
+        return val
+
+    def child(self, name):
+        return self._call("child", name)
+
+    def preauthChild(self, name):
+        return self._call("preauthChild", name)
+
+    def clonePath(self, p, *a):
+        return _FP(p, self.methods_)
+
+
+def _coerce(pattern, s):
+    if isinstance(pattern, bytes):
+        return s.encode("utf-8") if isinstance(s, str) else s
+    return s.decode("utf-8") if isinstance(s, bytes) else s
+
+
+def _model(fp):
+    """callee text -> model, for the helpers of twisted.python.filepath that are not os / os.path (those are modelled by the evaluator itself)"""
     return {
-        "_coerceToFilesystemEncoding": lambda p, s: s,
-        "self._getPathAsSameTypeAs": lambda p: root,
+        "_coerceToFilesystemEncoding": _coerce,
+        "self._getPathAsSameTypeAs": lambda pattern: _coerce(pattern, fp.path),
+        "self._asBytesPath": lambda *a: _coerce(b"", fp.path),
+        "self._asTextPath": lambda *a: _coerce("", fp.path),
         "platform.isWindows": lambda: False,
-        "normpath": posixpath.normpath, "abspath": posixpath.abspath, "joinpath": posixpath.join,
-        "os.path.normpath": posixpath.normpath, "os.path.abspath": posixpath.abspath, "os.path.join": posixpath.join,
-        "commonpath": lambda xs: posixpath.commonpath(list(xs)), "os.path.commonpath": lambda xs: posixpath.commonpath(list(xs)),
-        "dirname": posixpath.dirname, "basename": posixpath.basename,
-        "self.clonePath": lambda p, *a: ("FilePath", p),
-        "InsecurePath": lambda *a: ("InsecurePath",),
+        "self.clonePath": fp.clonePath,
+        "exists": lambda p: True,
     }
 
 
+def _text(p):
+    return p.decode("utf-8", "surrogateescape") if isinstance(p, bytes) else p
+
+
 def _inside(root, p, direct):
-    p = posixpath.normpath(p)
+    p = posixpath.normpath(_text(p))
     if p == root:
         return True
     base = root.rstrip("/") + "/"
@@ -69,42 +112,53 @@ def _inside(root, p, direct):
     return ("/" not in rest) if direct else True
 
 
+def _methods(ctx):
+    return {"child": ctx.func(FP, "FilePath.child"), "preauthChild": ctx.func(FP, "FilePath.preauthChild")}
+
+
 def _semantics(ctx, meth, direct, rule):
-    f = ctx.func(FP, "FilePath." + meth)
+    ms = _methods(ctx)
     q = "twisted.python.filepath.FilePath." + meth
-    pn = param_names(f)[1]
     bad, accepted, n = [], 0, 0
     names = _names()
     try:
         for root in ROOTS:
-            funcs = _model(root)
-            for name in names:
-                n += 1
-                kind, val = interpret(f, {pn: name, "self": None}, {"os.sep": "/"}, funcs=funcs)
-                if kind == "raise":
-                    if val != "InsecurePath":
-                        bad.append((root, name, f"raises {val}"))
-                    continue
-                if not (isinstance(val, tuple) and val and val[0] == "FilePath"):
-                    bad.append((root, name, f"returns {val!r}"))
-                    continue
-                if not _inside(root, val[1], direct):
-                    bad.append((root, name, f"returns {val[1]!r}"))
-                else:
-                    accepted += 1
-            # ordinary names are accepted and land where expected
-            for name, want in (("a", root.rstrip("/") + "/a"), ("..a", root.rstrip("/") + "/..a")) + ((("a/root", root.rstrip("/") + "/a/root"),) if not direct else ()):
-                kind, val = interpret(f, {pn: name, "self": None}, {"os.sep": "/"}, funcs=funcs)
-                if kind != "return" or val != ("FilePath", want):
-                    bad.append((root, name, f"{kind} {val!r} instead of {want!r}"))
+            for mode in (str, bytes):
+                fp = _FP(root, ms)
+                for name0 in names:
+                    name = name0.encode("utf-8") if mode is bytes else name0
+                    n += 1
+                    try:
+                        val = getattr(fp, meth)(name)
+                    except InsecurePath:
+                        continue
+                    except RuntimeError as e:
+                        bad.append((root, name, str(e)))
+                        continue
+                    if not isinstance(val, _FP) or not isinstance(val.path, mode):
+                        bad.append((root, name, f"returns {getattr(val, 'path', val)!r}"))
+                    elif not _inside(root, val.path, direct):
+                        bad.append((root, name, f"returns {val.path!r}"))
+                    else:
+                        accepted += 1
+                # ordinary names are accepted and land where expected
+                for name0, want in (("a", root.rstrip("/") + "/a"), ("..a", root.rstrip("/") + "/..a")) + ((("a/root", root.rstrip("/") + "/a/root"),) if not direct else ()):
+                    name = name0.encode("utf-8") if mode is bytes else name0
+                    try:
+                        val = getattr(fp, meth)(name)
+                        got = _text(val.path) if isinstance(val, _FP) else repr(val)
+                    except (InsecurePath, RuntimeError) as e:
+                        got = f"raises {type(e).__name__}"
+                    if got != want:
+                        bad.append((root, name, f"gives {got!r} instead of {want!r}"))
     except InterpError as e:
-        raise AnalysisError(f"C26: FilePath.{meth} is no longer a loop-free function over os.path the evaluator can interpret: {e}")
+        raise AnalysisError(f"C26: FilePath.{meth} uses a construct the evaluator cannot interpret: {e}")
     msg = ""
     if bad:
         r, nm, what = bad[0]
         msg = (f"FilePath({r!r}).{meth}({nm!r}) {what}: not InsecurePath, the parent itself or "
                f"{'a direct child' if direct else 'a path inside the subtree'}; {len(bad)} of {n} names misjudged")
-    ctx.check(not bad, rule, q, msg, detail=f"{n} (parent, name) cases; {accepted} accepted, all contained")
+    ctx.check(not bad, rule, q, msg, detail=f"{n} (parent, name, str/bytes) cases; {accepted} accepted, all contained")
     ctx.extra.setdefault("finite_cases", {})[meth] = n
 
 
@@ -122,33 +176,42 @@ def check(ctx):
 
 
 def _descendant(ctx):
-    # descendant: only child() per segment
-    for cls in ("AbstractFilePath",):
-        f = ctx.func(FP, cls + ".descendant")
-        q = f"twisted.python.filepath.{cls}.descendant"
-        seg = param_names(f)[1]
-        loops = [s for s in walk_local(f) if isinstance(s, ast.For) and src(s.iter) == seg]
-        rets = [s for s in walk_local(f) if isinstance(s, ast.Return)]
-        ok = len(loops) == 1 and len(rets) == 1 and isinstance(rets[0].value, ast.Name)
-        if ok:
-            acc = rets[0].value.id
-            binds = [s for s in walk_local(f) if isinstance(s, (ast.Assign, ast.AnnAssign)) and src(s.targets[0] if isinstance(s, ast.Assign) else s.target) == acc]
-            for b in binds:
-                v = b.value
-                inloop = any(x is b for x in ast.walk(loops[0]))
-                if inloop:
-                    ok = ok and isinstance(v, ast.Call) and call_name(v) == f"{acc}.child" and [src(a) for a in v.args] == [src(loops[0].target)]
-                else:
-                    ok = ok and src(v) == "self"
-            ok = ok and any(any(x is b for x in ast.walk(loops[0])) for b in binds)
-            others = [c for c in walk_local(f) if isinstance(c, ast.Call) and call_attr(c) in ("preauthChild", "clonePath", "joinpath", "join", "FilePath")]
-            ok = ok and not others
-        ctx.check(ok, "containment/descendant-via-child", q, "descendant() does not build its result solely by child(segment) for each segment starting from self")
-    # the concrete FilePath does not replace descendant with something else (TYPE_CHECKING stubs aside)
-    cls = ctx.cls(FP, "FilePath")
-    d = methods(cls).get("descendant")
-    ok = d is None or all(isinstance(s, (ast.Expr, ast.Pass)) for s in d.body)
-    ctx.check(ok, "containment/descendant-via-child", "twisted.python.filepath.FilePath.descendant", "FilePath overrides descendant() with an unchecked implementation")
+    ms = _methods(ctx)
+    own = methods(ctx.cls(FP, "FilePath")).get("descendant")
+    stub = own is None or all(isinstance(s_, (ast.Expr, ast.Pass)) for s_ in own.body)   # TYPE_CHECKING signature stubs
+    f = ctx.func(FP, "AbstractFilePath.descendant") if stub else own
+    q = "twisted.python.filepath." + ("AbstractFilePath" if stub else "FilePath") + ".descendant"
+    seg = param_names(f)[1]
+    singles = sorted(set(SEGS + ["a/b", "../root-evil", "/etc", "x/../..", "../", "./..", "..//", "a/../../b"]))
+    cases = [[a_] for a_ in singles] + [[a_, b_] for a_ in singles for b_ in singles] + [["a", "b", ".."], ["a", "..", ".."], ["a", "b", "c"]]
+    bad, n = [], 0
+    try:
+        for root in ROOTS:
+            for mode in (str, bytes):
+                for segs0 in cases:
+                    segs = [x.encode("utf-8") if mode is bytes else x for x in segs0]
+                    n += 1
+                    fp = _FP(root, ms)
+                    kind, val = interpret(f, {seg: segs, "self": fp}, funcs=_model(fp))
+                    if kind == "raise":
+                        if val != "InsecurePath":
+                            bad.append((root, segs, f"raises {val}"))
+                        continue
+                    if not isinstance(val, _FP) or not _inside(root, val.path, False):
+                        bad.append((root, segs, f"returns {getattr(val, 'path', val)!r}"))
+                for segs0, want in ((["a", "b"], root.rstrip("/") + "/a/b"), ([], root)):
+                    segs = [x.encode("utf-8") if mode is bytes else x for x in segs0]
+                    fp = _FP(root, ms)
+                    kind, val = interpret(f, {seg: segs, "self": fp}, funcs=_model(fp))
+                    if kind != "return" or not isinstance(val, _FP) or _text(val.path) != want:
+                        bad.append((root, segs, f"gives {kind} {getattr(val, 'path', val)!r} instead of {want!r}"))
+    except InterpError as e:
+        raise AnalysisError(f"C26: descendant() uses a construct the evaluator cannot interpret: {e}")
+    msg = ""
+    if bad:
+        r, sg, what = bad[0]
+        msg = f"FilePath({r!r}).descendant({sg!r}) {what}: not InsecurePath or a path inside the subtree; {len(bad)} of {n} segment lists misjudged"
+    ctx.check(not bad, "containment/descendant-semantics", q, msg, detail=f"{n} segment lists")
 
 
 SANITISER = "self.child"
@@ -280,10 +343,15 @@ MUTANTS = [
     Mutant("getChild-insecurepath-unhandled", ST, "            try:\n                fpath = self.child(path)\n            except filepath.InsecurePath:\n                return self.childNotFound\n",
            "            fpath = self.child(path)\n"),
     Mutant("process-unquotes-before-split", SV, "        self.postpath = list(map(unquote, self.path[1:].split(b\"/\")))", "        self.postpath = unquote(self.path[1:]).split(b\"/\")"),
-    Mutant("descendant-uses-preauthChild", FP, "        for name in segments:\n            path = path.child(name)\n        return path", "        for name in segments:\n            path = path.preauthChild(name)\n        return path"),
+    Mutant("descendant-joins-segments-directly", FP, "        for name in segments:\n            path = path.child(name)\n        return path", "        for name in segments:\n            path = path.clonePath(joinpath(path.path, name))\n        return path"),
+    Mutant("child-only-refuses-literal-pardir", FP, "        norm = normpath(path)\n        if sep in norm:\n            raise InsecurePath(f\"{path!r} contains one or more directory separators\")\n\n        newpath = abspath(joinpath(ourPath, norm))\n        if not newpath.startswith(ourPath):\n            raise InsecurePath(f\"{newpath!r} is not a child of {ourPath!r}\")\n        return self.clonePath(newpath)\n\n    def preauthChild",
+           "        if path == _coerceToFilesystemEncoding(path, os.pardir):\n            raise InsecurePath(f\"{path!r} is the parent directory\")\n        norm = normpath(path)\n        if sep in norm:\n            raise InsecurePath(f\"{path!r} contains one or more directory separators\")\n        # norm is one segment and ourPath is absolute: no second look needed\n        return self.clonePath(joinpath(ourPath, norm))\n\n    def preauthChild"),
     Mutant("index-search-from-request", ST, "            fpath = self.childSearchPreauth(*self.indexNames)", "            fpath = self.childSearchPreauth(*(request.args.get(b\"index\") or self.indexNames))"),
 ]
 SILENT = [
+    Silent("descendant-via-preauthChild-still-contained", FP, "        for name in segments:\n            path = path.child(name)\n        return path", "        for name in segments:\n            path = path.preauthChild(name)\n        return path"),
+    Silent("child-explicit-pardir-test-keeps-recheck", FP, "        norm = normpath(path)\n        if sep in norm:", "        if path == _coerceToFilesystemEncoding(path, os.pardir):\n            raise InsecurePath(f\"{path!r} is the parent directory\")\n        norm = normpath(path)\n        if sep in norm:"),
+    Silent("preauth-commonpath-real", FP, "        if newpath != ourPath and not newpath.startswith(ourPath.rstrip(sep) + sep):", "        if os.path.commonpath([newpath, ourPath]) != ourPath:"),
     Silent("preauth-commonpath-form", FP, "        if newpath != ourPath and not newpath.startswith(ourPath.rstrip(sep) + sep):", "        if newpath != ourPath and not (newpath + sep).startswith(ourPath.rstrip(sep) + sep):"),
     Silent("child-separator-aware-too", FP, "        if not newpath.startswith(ourPath):\n            raise InsecurePath(f\"{newpath!r} is not a child of {ourPath!r}\")\n        return self.clonePath(newpath)\n\n    def preauthChild",
            "        if newpath != ourPath and not newpath.startswith(ourPath.rstrip(sep) + sep):\n            raise InsecurePath(f\"{newpath!r} is not a child of {ourPath!r}\")\n        return self.clonePath(newpath)\n\n    def preauthChild"),
